@@ -805,6 +805,38 @@ def rule_cores(ctx):
                 r.violation(k, a.loc, "sliced_inds changes but a compiled contractor for the "
                             "old sliced set can survive (no contraction_cores.clear() on some "
                             "path to return)", path=fl.cfg.describe_path(p) if p else "")
+    # (sensitivity map) the compiled contractor is built from the per-node recipes: whoever re-writes or drops
+    # an order-sensitive key of existing nodes by hand (sorting the index orders, resetting them) must drop the
+    # compiled contractors too, on every path — they embody the old axes / permutations / equations
+    O = order_sensitive(ctx)
+    for f in tree_funcs(ctx, ctx.tier == "thorough"):
+        if f.name in ("__init__", "set_state_from", "_remove_node") or f.name.startswith("get_") or \
+                (f.cls is not None and f.cls.module.path != C.CORE):
+            continue
+        if any((dotted(d.func) if isinstance(d, ast.Call) else dotted(d)) in ("cached_node_property",) for d in f.decorators):
+            continue
+        events = []
+        for kind, key_, nodeexpr, n, val, keyexpr in C.info_key_accesses(f):
+            keys = [key_] if key_ is not None else (C.loop_key_values(ctx, f, keyexpr, n) or [])
+            if kind in ("store", "pop", "del") and any(k_ in O for k_ in keys):
+                events.append(n)
+        if not events:
+            continue
+        fl = ctx.flow(f)
+        clears = _clears_cores_nodes(ctx, f, fl)
+        k = ctx.key(f, "C02-CORES", "recipes")
+        bad = None
+        for ev in events:
+            cn = fl.cfg.containing(ev, f.module.parents)
+            if cn is not None and not fl.cfg.all_paths_pass(cn.id, clears):
+                bad = ev
+                break
+        if bad is None:
+            r.ok(k, f.loc, f"{len(events)} write(s)/drop(s) of order-sensitive recipes are followed by contraction_cores.clear() on every path")
+        else:
+            r.violation(k, C.loc(f, bad), f"`{C.unparse(C.enclosing_stmt(f, bad), 60)}` changes an order-sensitive recipe of an existing "
+                        f"node, but a compiled contractor built from the old recipes can survive (no contraction_cores.clear() on "
+                        f"some path to the return): the next contract() with the same options executes the old program")
     return r
 
 
